@@ -63,7 +63,7 @@ CHECKS = {
    ref='DESIGN §3 C12'),
  'C16': dict(cat=TV, tech='the same generator tree pushed through every real front door; pairwise projection equivalence of the compiled linear models decided by z3 (exists/forall), shared verdict/optimum judged against the source by z3 oracle queries',
    text='For every family member the model is built through the fluent builder (operator overloads, helper functions, three call orders), as source text through RoocParser+Linearizer, through PipeRunner and through RoocSolver; z3 decides for all assignments that all compiled linear models have the same projection on the declared variables and best objective; all doors must accept or all reject, and agree on verdict and optimum, which is additionally judged against the source semantics (no better assignment / no satisfying assignment).',
-   note='Equivalence part is solver-decided; row-for-row identity, call-order identity and the read-back clauses (var_value, numeric_value, eval, unused variables inside their domain) are evaluations at one point, reported separately in the evidence. The builder macros (vars!, constraint!, expr!) are covered by two macro-written models over a grid of numbers; other macro-written shapes and API-supplied constants are outside.',
+   note='Equivalence part is solver-decided; row-for-row identity, call-order identity and the read-back clauses (var_value, numeric_value, eval, unused variables inside their domain) are evaluations at one point, reported separately in the evidence. The builder macros (vars!, constraint!, expr!) are covered by two macro-written models over a grid of numbers; numeric constants supplied through the API of parse_and_transform / PipeContext / RoocSolver are covered by the API-constants door; other macro-written shapes and non-numeric API data are outside.',
    ref='DESIGN §3 C16'),
  'C18': dict(cat='other', engine='K', tech='bounded model checking (Kani 0.68 / CBMC 6.11, SAT) of the real arithmetic, value-conversion and span kernels with fully symbolic 64-bit / 32-bit operands, one proof harness per (receiver type, operator, operand kind), per conversion and for InputSpan::span_text',
    text='Partial claim, kernel level only: for ALL 64-bit operands and every operator / operand-kind combination the real <i64/u64/f64/bool as ApplyOp> implementations return Ok or Err and never panic or trap on overflow (dev profile); integer results equal the mathematical result computed in i128 or the call returns an error; division by zero is an error. These are the value-level totality cases the property rationale names (negation at the type minimum, mixed signed/unsigned arithmetic, int/float casts, division by zero). Also: Primitive::as_integer_cast / as_usize_cast return the mathematical value or an error for every payload (no wrap, no saturation), and InputSpan::span_text returns Ok exactly for spans inside the text on character boundaries for all (start, len) in u32 x u32 (text with 1-, 2-, 3-byte characters; alloc::fmt::format stubbed); IterableKind::read returns Err for every two-index path into a nested array whose outer level is empty and Ok exactly for in-range single indexes into a flat array.',
